@@ -14,7 +14,7 @@ func TestMain(m *testing.M) {
 	core.Main(m, "C15", "cases = one server (generated handler table over all 15 column types, COPY, errors) and 2..8 client sessions of up to 12 simple/extended/COPY messages each, deliberately sharing statement and portal names and query texts, with different users; run (s1) free-running: one harness goroutine per connection, no cross-connection synchronisation, or (s2) under a generated message-level interleaving; oracle = every session's transcript and callback trace equal the same session run alone on a fresh identical server (differential), and the -race build reports no data race with a psql-wire frame; non-trivial = >= 2 sessions using prepared statements/portals with shared names; distinct = distinct canonical JSON")
 }
 
-var opts = gen.RichOpts{Copy: true, BigErrs: false, Helpers: true, MaxMsgs: 12}
+var opts = gen.RichOpts{Copy: true, BigErrs: false, Helpers: true, Oversized: true, MaxMsgs: 12}
 
 func genCase(t *rapid.T) Case {
 	c := Case{}
@@ -45,6 +45,7 @@ func genCase(t *rapid.T) Case {
 			total += len(blk)
 		}
 	}
+	c.Staller = rapid.SampledFrom([]string{"", "", "oversized-partial", "message-partial"}).Draw(t, "staller")
 	if rapid.Bool().Draw(t, "owned-schedule") {
 		for len(c.Schedule) < total {
 			i := rapid.IntRange(0, n-1).Draw(t, "who")
